@@ -515,7 +515,10 @@ class Emitter:
 
 PRELUDE = """#![allow(unused_imports, unused_variables, dead_code, unused_mut, unused_parens, unused_braces, unused_assignments, non_snake_case)]
 #![feature(allocator_api)]
+#![feature(pattern)]
 use vstd::prelude::*;
+use vstd::std_specs::hash::*;
+use vstd::string::StringSliceAdditionalSpecFns;
 verus! {
 
 // X4: crate::HashMap/HashSet (Fx-hashed) -> std HashMap/HashSet (abstract map/set, arbitrary iteration order)
